@@ -10,6 +10,7 @@ pub fn run(ctx: &mut Ctx) {
     let part = ctx.part.clone();
     if part.is_empty() || part == "small" { small(ctx); }
     if part.is_empty() || part == "gen" { generated(ctx); }
+    if part.is_empty() || part == "big" { big(ctx); }
 }
 
 fn naive_bit_len(n: u64) -> usize {
@@ -90,7 +91,12 @@ pub fn check_wm(ctx: &mut Ctx, wm: &WaveletMatrix, v: &[u64], idx: &[usize], val
         }
         // select / select_iter for every rank up to count + 2 (and the same index arguments used as ranks).
         let mut ranks: Vec<usize> = (0..std::cmp::min(occ.len(), 40) + 3).collect();
-        if occ.len() > 40 { ranks.push(occ.len() - 1); ranks.push(occ.len()); ranks.push(occ.len() + 1); ranks.push(occ.len() / 2); }
+        if occ.len() > 40 {
+            ranks.push(occ.len() - 1); ranks.push(occ.len()); ranks.push(occ.len() + 1); ranks.push(occ.len() / 2);
+            // Spread over all occurrences, and both sides of every multiple of 4096 (select superblocks of the levels).
+            for k in 1..16 { ranks.push(occ.len() * k / 16); }
+            let mut r = 4096; while r <= occ.len() { ranks.push(r - 1); ranks.push(r); ranks.push(r + 1); r += 4096; }
+        }
         ranks.push(n); ranks.push(n + 1);
         for &r in &ranks {
             ctx.expect_eq("wm.select", || format!("select({}, {}) on {}", r, val, desc()), &guard(|| wm.select(r, val)), &occ.get(r).copied());
@@ -259,5 +265,54 @@ fn generated(ctx: &mut Ctx) {
                 }
             }
         }
+    }
+}
+
+// Vectors long enough, and skewed enough, for the level bitvectors to have long select superblocks (fewer than 4096 ones -
+// or zeros - per bit_len(len)^4 positions), several in a row, for ones and for zeros: the levels are plain bitvectors, but
+// the matrix reaches their select structures only through map_up.
+fn big(ctx: &mut Ctx) {
+    if cfg!(miri) { return; }
+    // (length, width, percent of items that differ from the common value x 10, common value is the largest)
+    let mut configs: Vec<(usize, usize, usize, bool)> = vec![(450_000, 3, 20, false), (450_000, 3, 20, true), (700_000, 5, 15, false), (300_000, 2, 25, true)];
+    if !ctx.quick() { configs.extend_from_slice(&[(1_200_000, 4, 10, false), (1_200_000, 4, 10, true), (200_000, 1, 20, false), (200_000, 1, 20, true), (900_000, 8, 25, false), (524_288, 3, 15, true), (524_287, 6, 15, false), (2_100_000, 2, 8, true)]); }
+    for (ci, &(len, width, permille, high_common)) in configs.iter().enumerate() {
+        if !ctx.mine(ci as u64) { continue; }
+        if !ctx.begin_case() { continue; }
+        let mut rng = ctx.rng(0xC4_B000 + ci as u64);
+        let top = (1u64 << width) - 1;
+        let common = if high_common { top } else { 0 };
+        // Rare items come in three flavours: spread evenly, in bursts, and one long stretch of a single rare value.
+        let mut v: Vec<u64> = vec![common; len];
+        let mut i = 0usize;
+        while i < len {
+            if rng.below(1000) < permille {
+                let burst = if rng.chance(1, 50) { 1 + rng.below(40) } else { 1 };
+                for j in i..std::cmp::min(len, i + burst) { let mut x = rng.next_u64() & top; if x == common { x ^= 1; } v[j] = x; }
+                i += burst;
+            } else { i += 1; }
+        }
+        let stretch = len / 3 + rng.below(1000);
+        for j in stretch..std::cmp::min(len, stretch + 5000) { v[j] = common ^ 1; }
+        let t = match ci % 4 { 0 if width <= 8 => ItemType::U8, 1 => ItemType::U16, 2 => ItemType::U64, _ => ItemType::Usize };
+        let mut idx: Vec<usize> = vec![0, 1, 63, 64, 65, len / 2, len - 1, len, len + 1, len + 2, stretch, stretch + 4096, stretch + 5000];
+        for _ in 0..60 { idx.push(rng.below(len + 2)); }
+        idx.sort_unstable(); idx.dedup();
+        let mut values: Vec<u64> = (0..=std::cmp::min(top, 40)).collect();
+        values.extend_from_slice(&[top, top + 1, u64::MAX]);
+        values.sort_unstable(); values.dedup();
+        // What the definition says about the first level: how many long superblocks its rare bit has.
+        let bl = 64 - (len as u64).leading_zeros() as usize;
+        let log4 = bl * bl * bl * bl;
+        let rare: Vec<usize> = (0..len).filter(|j| ((v[*j] >> (width - 1)) & 1 == 1) != high_common).collect();
+        let mut long = 0u64;
+        let mut r = 0; while r < rare.len() { let lim = if r + 4096 < rare.len() { rare[r + 4096] } else { len }; if lim - rare[r] >= log4 { long += 1; } r += 4096; }
+        ctx.count(if high_common { "big.model_long_superblocks_first_level_zeros" } else { "big.model_long_superblocks_first_level_ones" }, long);
+        match build_wm(&v, t) {
+            Ok(wm) => check_wm(ctx, &wm, &v, &idx, &values, &format!("big {:?}", t)),
+            Err(e) => ctx.violation("wm.construct", format!("WaveletMatrix::from panicked ({}) on width {} len {}", e, width, len)),
+        }
+        ctx.case(hash64(&[3, width as u64, len as u64, permille as u64, high_common as u64, hash64(&v[..2000])]), true);
+        ctx.sample(|| format!("big: len={} width={} common value {} ({} permille differ, in singles, bursts and one stretch of 5000), item type {:?}; first level has {} long select superblocks on the rare side; idx_args={} value_args={}", len, width, common, permille, t, long, idx.len(), values.len()));
     }
 }
